@@ -1,9 +1,12 @@
-(* PhcFacts.v — the executable PHC string codec of Model/Kdf.v (phc_print_x / phc_parse_x, unpadded
-   base64, decimal parameters) round-trips every record a writer prints, for EVERY algorithm choice,
-   parameter value and salt (no side condition), and the reader dispatches on the writer's algorithm
-   names.  This discharges the two codec premises of the C16 / C08 theorems of KdfFacts.v for the
-   codec the correspondence check runs against the `password-hash` crate; the theorems are restated
-   with the `_x` stand-ins so that no codec premise remains.
+(* PhcFacts.v — the executable PHC string codec of Model/Kdf.v (phc_print_x / phc_parse_x: the rules of
+   password-hash 0.5 — identifier, value, salt and hash alphabets and length limits, canonical decimals — with
+   unpadded base64 and decimal parameters) round-trips every record a writer prints whose parameter values are
+   values of the format (at most 64 digits; 127 bytes for the whole parameter string) and whose salt has 3..48
+   bytes (4..64 characters), for every algorithm choice; these conditions are implied by what writer_context_x
+   checks itself (u32 parameters, a 16-byte salt), and without them the round trip fails (`_refuted`).  The
+   reader dispatches on the writer's algorithm names.  This discharges the two codec premises of the C16 / C08
+   theorems of KdfFacts.v for the codec the correspondence check runs against the `password-hash` crate; the
+   theorems are restated with the `_x` stand-ins so that no codec premise remains.
    (That the crate computes the same strings as phc_print_x / phc_parse_x is established by the
    correspondence runs of the kdf area, not by proof.) *)
 From PNA Require Import Base Codec Kdf BaseFacts NameFacts KdfFacts.
@@ -180,6 +183,102 @@ Proof.
   intros H I. pose proof (dec_digits n) as F. rewrite Forall_forall in F. specialize (F c I). unfold is_dig in F. lia.
 Qed.
 
+(* ==== more on base64: lengths and alphabet =================================================== *)
+Lemma b64_enc_len_lo : forall l : bytes, (4 * length l <= 3 * length (b64_enc l))%nat.
+Proof. induction l as [|a|a b|a b c l IH] using list_ind3; cbn [b64_enc length]; lia. Qed.
+Lemma b64_enc_len_hi : forall l : bytes, (3 * length (b64_enc l) <= 4 * length l + 2)%nat.
+Proof. induction l as [|a|a b|a b c l IH] using list_ind3; cbn [b64_enc length]; lia. Qed.
+
+Lemma b64_enc_all (P : byte -> Prop) : (forall n, n < 64 -> P (b64_char n)) -> forall l : bytes, Forall P (b64_enc l).
+Proof.
+  intro H. induction l as [|a|a b|a b c l IH] using list_ind3.
+  - constructor.
+  - destruct (sext1 (b2n a) (b2n_lt a)) as (X & Y & _). cbv zeta in *.
+    cbn [b64_enc]. repeat constructor; apply H; assumption.
+  - destruct (sext2 (b2n a) (b2n b) (b2n_lt a) (b2n_lt b)) as (X & Y & Z & _). cbv zeta in *.
+    cbn [b64_enc]. repeat constructor; apply H; assumption.
+  - destruct (sext3 (b2n a) (b2n b) (b2n c) (b2n_lt a) (b2n_lt b) (b2n_lt c)) as (X & Y & Z & W & _). cbv zeta in *.
+    cbn [b64_enc]. repeat (constructor; [apply H; assumption|]). exact IH.
+Qed.
+
+Lemma b64_char_value n : n < 64 -> value_char (b64_char n) = true.
+Proof.
+  intro H.
+  assert (forallb (fun n => value_char (b64_char n)) (map N.of_nat (seq 0 64)) = true) as A by (vm_compute; reflexivity).
+  rewrite forallb_forall in A. exact (A n (in_below 64 n H)).
+Qed.
+Lemma b64_enc_value l : forallb value_char (b64_enc l) = true.
+Proof.
+  apply forallb_forall. intros c I. pose proof (b64_enc_all (fun c => value_char c = true) b64_char_value l) as F.
+  rewrite Forall_forall in F. exact (F c I).
+Qed.
+
+(* the salt text of a salt of 3..48 bytes is a Salt of the format *)
+Lemma salt_text_ok_enc (salt : bytes) : (3 <= length salt <= 48)%nat -> salt_text_ok (b64_enc salt) = true.
+Proof.
+  intros [L H]. unfold salt_text_ok. rewrite b64_enc_value.
+  pose proof (b64_enc_len_lo salt). pose proof (b64_enc_len_hi salt).
+  replace (Nat.leb 4 (length (b64_enc salt))) with true by (symmetry; apply Nat.leb_le; lia).
+  replace (Nat.leb (length (b64_enc salt)) 64) with true by (symmetry; apply Nat.leb_le; lia).
+  reflexivity.
+Qed.
+
+(* ==== more on decimals: canonical, short, value characters ================================== *)
+Lemma dec_fuel_head fuel : forall n acc, 0 < n -> n < 2 ^ N.of_nat fuel ->
+  exists c r, dec_fuel fuel n acc = c :: r /\ c <> x30.
+Proof.
+  induction fuel as [|f IH]; intros n acc P H.
+  - change (2 ^ N.of_nat 0) with 1 in H. lia.
+  - rewrite Nat2N.inj_succ, N.pow_succ_r' in H. cbn [dec_fuel]. destruct (N.ltb n 10) eqn:E.
+    + apply N.ltb_lt in E. eexists _, _. split; [reflexivity|].
+      intro C. apply (f_equal b2n) in C. rewrite b2n_n2b_small in C by lia. change (b2n x30) with 48 in C. lia.
+    + apply N.ltb_ge in E. apply IH; lia.
+Qed.
+
+Lemma log2_fuel n : n < 2 ^ N.of_nat (S (N.to_nat (N.log2 n))).
+Proof.
+  rewrite Nat2N.inj_succ, N2Nat.id. destruct n as [|p]; [vm_compute; reflexivity|]. apply N.log2_spec. lia.
+Qed.
+
+(* Value::decimal on what add_decimal prints: it is canonical; the only condition is the u32 range *)
+Theorem canon_dec_dec : forall n : N, canon_dec (dec n) = if N.ltb n U32 then Some n else None.
+Proof.
+  intro n. unfold canon_dec. pose proof (undec_dec n) as U.
+  destruct (N.eq_dec n 0) as [->|NZ]; [vm_compute; reflexivity|].
+  destruct (dec_fuel_head _ n [] ltac:(lia) (log2_fuel n)) as (c & r & E & C). fold (dec n) in E.
+  rewrite E in *. destruct (byte_eqb c x30) eqn:B; [apply byte_eqb_eq in B; contradiction|].
+  cbn [andb]. rewrite U. reflexivity.
+Qed.
+
+Lemma dec_fuel_len fuel : forall (k : nat) n acc, (1 <= k)%nat -> n < 10 ^ N.of_nat k ->
+  (length (dec_fuel fuel n acc) <= k + length acc)%nat.
+Proof.
+  induction fuel as [|f IH]; intros k n acc K H; cbn [dec_fuel]; [lia|].
+  destruct (N.ltb n 10) eqn:E; [cbn [length]; lia|].
+  apply N.ltb_ge in E. destruct k as [|[|k]]; [lia | change (10 ^ N.of_nat 1) with 10 in H; lia |].
+  rewrite Nat2N.inj_succ, N.pow_succ_r' in H.
+  specialize (IH (S k) (n / 10) (n2b (48 + n mod 10) :: acc) ltac:(lia) ltac:(lia)). cbn [length] in IH. lia.
+Qed.
+Lemma dec_len (k : nat) n : (1 <= k)%nat -> n < 10 ^ N.of_nat k -> (length (dec n) <= k)%nat.
+Proof. intros K H. pose proof (dec_fuel_len (S (N.to_nat (N.log2 n))) k n [] K H) as L. cbn [length] in L. unfold dec. lia. Qed.
+Lemma dec_len_u32 n : n < U32 -> (length (dec n) <= 10)%nat.
+Proof. intro H. apply dec_len; [lia|]. unfold U32 in H. change (2 ^ 32) with 4294967296 in H. change (10 ^ N.of_nat 10) with 10000000000. lia. Qed.
+
+Lemma dig_value b : is_dig b -> value_char b = true.
+Proof.
+  unfold is_dig, value_char, Kdf.between. intros [A B]. apply N.leb_le in A, B.
+  rewrite !orb_true_iff. left; left; left; left; right. rewrite A, B. reflexivity.
+Qed.
+Lemma dec_value_chars n : forallb value_char (dec n) = true.
+Proof.
+  apply forallb_forall. intros c I. pose proof (dec_digits n) as F. rewrite Forall_forall in F. exact (dig_value c (F c I)).
+Qed.
+(* a number of at most 64 digits prints as a value of the format; every u32 does *)
+Lemma value_ok_dec n : (length (dec n) <= 64)%nat -> value_ok (dec n) = true.
+Proof. intro L. unfold value_ok. rewrite dec_value_chars. replace (Nat.leb (length (dec n)) 64) with true by (symmetry; apply Nat.leb_le; lia). reflexivity. Qed.
+Lemma value_ok_dec_u32 n : n < U32 -> value_ok (dec n) = true.
+Proof. intro H. apply value_ok_dec. pose proof (dec_len_u32 n H). lia. Qed.
+
 (* ==== separator-freeness ===================================================================== *)
 Lemma notin_app (c : byte) a b : ~ In c a -> ~ In c b -> ~ In c (a ++ b).
 Proof. intros A B H. apply in_app_or in H. tauto. Qed.
@@ -187,6 +286,8 @@ Lemma notin_closed (c : byte) l : forallb (fun b => negb (byte_eqb b c)) l = tru
 Proof.
   intros H I. rewrite forallb_forall in H. specialize (H c I). rewrite byte_eqb_refl in H. discriminate.
 Qed.
+Lemma notin_forallb (f : byte -> bool) (c : byte) l : forallb f l = true -> f c = false -> ~ In c l.
+Proof. intros H F I. rewrite forallb_forall in H. rewrite (H c I) in F. discriminate. Qed.
 Lemma notin_join (c sep : byte) ls : c <> sep -> Forall (fun l => ~ In c l) ls -> ~ In c (join [sep] ls).
 Proof.
   intros N. induction ls as [|x [|y r] IH]; intro F.
@@ -196,26 +297,33 @@ Proof.
     change (join [sep] (x :: y :: r)) with (x ++ sep :: join [sep] (y :: r)).
     apply notin_app; [exact Hx|]. intros [E|I]; [exact (N (eq_sym E)) | exact (IH F' I)].
 Qed.
+(* identifiers and values contain none of the separators `$` `,` `=` *)
+Lemma ident_notin c k : ident_ok k = true -> ident_char c = false -> ~ In c k.
+Proof. unfold ident_ok. intros H F. apply andb_true_iff in H. destruct H as [_ H]. exact (notin_forallb _ _ _ H F). Qed.
+Lemma value_notin c v : value_ok v = true -> value_char c = false -> ~ In c v.
+Proof. unfold value_ok. intros H F. apply andb_true_iff in H. destruct H as [_ H]. exact (notin_forallb _ _ _ H F). Qed.
 
 (* ==== parameters ============================================================================== *)
-Lemma show_param_notin c kv : ~ In c (fst kv) -> c <> eqsign -> b2n c < 48 \/ 57 < b2n c -> ~ In c (show_param kv).
+Definition param_ok (kv : bytes * bytes) : Prop := ident_ok (fst kv) = true /\ value_ok (snd kv) = true.
+
+Lemma show_param_notin c kv : param_ok kv -> ident_char c = false -> value_char c = false -> c <> eqsign -> ~ In c (show_param kv).
 Proof.
-  intros K E D. unfold show_param. apply notin_app; [exact K|]. apply notin_app.
+  intros [K V] IC VC E. unfold show_param. apply notin_app; [exact (ident_notin _ _ K IC)|]. apply notin_app.
   - intros [H|[]]. exact (E (eq_sym H)).
-  - apply notin_dec. exact D.
+  - exact (value_notin _ _ V VC).
 Qed.
 
-Lemma parse_show_param kv : ~ In eqsign (fst kv) -> parse_param (show_param kv) = Some kv.
+(* one `name=value` pair: any identifier, any value *)
+Lemma parse_show_param kv : param_ok kv -> parse_param (show_param kv) = Some kv.
 Proof.
-  intro K. destruct kv as [k n]. unfold parse_param, show_param. cbn [fst snd] in *.
-  change (k ++ [eqsign] ++ dec n) with (k ++ eqsign :: dec n).
-  rewrite fields_app_nosep by exact K.
-  rewrite fields_nosep by (apply notin_dec; vm_compute; right; reflexivity).
-  rewrite undec_dec. reflexivity.
+  intros [K V]. destruct kv as [k v]. unfold parse_param, show_param. cbn [fst snd] in *.
+  change (k ++ [eqsign] ++ v) with (k ++ eqsign :: v).
+  rewrite fields_app_nosep by (apply (ident_notin _ _ K); vm_compute; reflexivity).
+  rewrite fields_nosep by (apply (value_notin _ _ V); vm_compute; reflexivity).
+  rewrite K, V. reflexivity.
 Qed.
 
-Lemma all_parse_show ps : Forall (fun kv => ~ In eqsign (fst kv)) ps ->
-  all_some (map parse_param (map show_param ps)) = Some ps.
+Lemma all_parse_show ps : Forall param_ok ps -> all_some (map parse_param (map show_param ps)) = Some ps.
 Proof.
   induction 1 as [|kv ps K F IH]; [reflexivity|].
   cbn [map all_some]. rewrite parse_show_param by exact K. rewrite IH. reflexivity.
@@ -231,89 +339,111 @@ Proof.
   - change (join [comma] (show_param kv :: y :: r)) with (show_param kv ++ [comma] ++ join [comma] (y :: r)). apply A.
 Qed.
 
+(* the parameter string: any non-empty list of pairs whose text has at most 127 bytes *)
+Lemma parse_params_show ps :
+  ps <> [] -> Forall param_ok ps -> (length (join [comma] (map show_param ps)) <= 127)%nat ->
+  parse_params (join [comma] (map show_param ps)) = Some ps.
+Proof.
+  intros NE F L. unfold parse_params.
+  replace (Nat.leb (length (join [comma] (map show_param ps))) 127) with true by (symmetry; apply Nat.leb_le; exact L).
+  rewrite fields_join.
+  - apply all_parse_show. exact F.
+  - apply Forall_forall. intros f I. apply in_map_iff in I. destruct I as (kv & <- & I).
+    rewrite Forall_forall in F. apply show_param_notin; [exact (F kv I) | vm_compute; reflexivity | vm_compute; reflexivity | vm_compute; discriminate].
+  - destruct ps; [contradiction | discriminate].
+Qed.
+
 (* the pieces of phc_parse_x after the split at `$` *)
 Definition get_ver (rest : list bytes) : option (option N) * list bytes :=
   match rest with
-  | (a :: b :: ds) :: r => if byte_eqb a x76 && byte_eqb b eqsign then (Some (undec ds), r) else (None, rest)
+  | (a :: b :: ds) :: r =>
+    if byte_eqb a x76 && byte_eqb b eqsign && negb (has_comma ds) then (Some (canon_dec ds), r) else (None, rest)
   | _ => (None, rest)
   end.
-Definition get_params (rest1 : list bytes) : option (list (bytes * N)) * list bytes :=
+Definition get_params (rest1 : list bytes) : option (list (bytes * bytes)) * list bytes :=
   match rest1 with
-  | f :: r => if has_eq f then (all_some (map parse_param (fields comma f)), r) else (Some [], rest1)
+  | f :: r => if has_eq f then (parse_params f, r) else (Some [], rest1)
   | [] => (Some [], rest1)
   end.
-Definition finish (alg : bytes) (version : option N) (ps : list (bytes * N)) (rest2 : list bytes) : option phc :=
+Definition finish (alg : bytes) (version : option N) (ps : list (bytes * bytes)) (rest2 : list bytes) : option phc :=
   match rest2 with
   | [] => Some {| ph_alg := alg; ph_version := version; ph_params := ps; ph_salt := None; ph_hash := None |}
-  | [salt] =>
-    match b64_dec salt with
-    | Some sb => Some {| ph_alg := alg; ph_version := version; ph_params := ps; ph_salt := Some sb; ph_hash := None |}
-    | None => None
+  | salt :: rest3 =>
+    if negb (salt_text_ok salt) then None else
+    let sb := match b64_dec salt with Some x => x | None => [] end in
+    match rest3 with
+    | [] => Some {| ph_alg := alg; ph_version := version; ph_params := ps; ph_salt := Some sb; ph_hash := None |}
+    | [hash] =>
+      match b64_dec hash with
+      | Some hb => if hash_len_ok hb
+                   then Some {| ph_alg := alg; ph_version := version; ph_params := ps; ph_salt := Some sb; ph_hash := Some hb |}
+                   else None
+      | None => None
+      end
+    | _ => None
     end
-  | [salt; hash] =>
-    match b64_dec salt, b64_dec hash with
-    | Some sb, Some hb => Some {| ph_alg := alg; ph_version := version; ph_params := ps; ph_salt := Some sb; ph_hash := Some hb |}
-    | _, _ => None
-    end
-  | _ => None
   end.
 
 Lemma phc_parse_x_fields s alg rest ver rest1 ps rest2 :
-  fields dollar s = [] :: alg :: rest -> alg <> [] ->
+  fields dollar s = [] :: alg :: rest -> ident_ok alg = true ->
   get_ver rest = (ver, rest1) -> ver <> Some None ->
   get_params rest1 = (Some ps, rest2) ->
   phc_parse_x s = finish alg (match ver with Some (Some v) => Some v | _ => None end) ps rest2.
 Proof.
-  intros F A V NV P. unfold phc_parse_x. rewrite F.
-  destruct alg as [|a0 alg]; [contradiction|].
+  intros F A V NV P. unfold phc_parse_x. rewrite F, A. cbn [negb].
   fold (get_ver rest). rewrite V. fold (get_params rest1). rewrite P.
   destruct ver as [[v|]|]; [reflexivity | contradiction | reflexivity].
 Qed.
 
 Lemma get_params_show ps r :
-  ps <> [] -> Forall (fun kv => ~ In eqsign (fst kv)) ps -> Forall (fun kv => ~ In comma (fst kv)) ps ->
+  ps <> [] -> Forall param_ok ps -> (length (join [comma] (map show_param ps)) <= 127)%nat ->
   get_params (join [comma] (map show_param ps) :: r) = (Some ps, r).
 Proof.
-  intros NE FE FC. unfold get_params. destruct ps as [|kv ps']; [contradiction|].
-  rewrite has_eq_show_join. rewrite fields_join.
-  - rewrite all_parse_show by exact FE. reflexivity.
-  - apply Forall_forall. intros f I. apply in_map_iff in I. destruct I as (kv' & <- & I).
-    rewrite Forall_forall in FC. apply show_param_notin; [exact (FC kv' I) | vm_compute; discriminate | vm_compute; left; reflexivity].
-  - discriminate.
+  intros NE F L. unfold get_params. destruct ps as [|kv ps'] eqn:E; [contradiction|].
+  rewrite has_eq_show_join. rewrite <- E in *. rewrite parse_params_show by assumption. reflexivity.
 Qed.
 
 (* ==== the writer's records ==================================================================== *)
-Definition dollar_free (l : bytes) : Prop := ~ In dollar l.
+(* the side condition of the round trip: exactly what the format demands of the variable parts of a writer
+   record — every parameter value is a value (at most 64 characters), the parameter string has at most 127
+   bytes, the salt text has 4..64 characters (3..48 bytes) *)
+Definition rt_side (h : hash_alg) (salt : bytes) : bool :=
+  forallb (fun kv => value_ok (snd kv)) (alg_params h)
+  && Nat.leb (length (join [comma] (map show_param (alg_params h)))) 127
+  && Nat.leb 3 (length salt) && Nat.leb (length salt) 48.
 
+Lemma alg_name_ident h : ident_ok (alg_name h) = true.
+Proof. destruct h; vm_compute; reflexivity. Qed.
 Lemma alg_name_nodollar h : ~ In dollar (alg_name h).
-Proof. destruct h; apply notin_closed; vm_compute; reflexivity. Qed.
+Proof. apply (ident_notin _ _ (alg_name_ident h)). vm_compute; reflexivity. Qed.
 
-Lemma alg_params_keys h :
-  alg_params h <> [] /\
-  Forall (fun kv => ~ In eqsign (fst kv)) (alg_params h) /\
-  Forall (fun kv => ~ In comma (fst kv)) (alg_params h) /\
-  Forall (fun kv => ~ In dollar (fst kv)) (alg_params h).
+Lemma alg_params_keys h : alg_params h <> [] /\ Forall (fun kv => ident_ok (fst kv) = true) (alg_params h).
 Proof.
-  destruct h; cbn [alg_params]; (split; [discriminate|]);
-    repeat split; repeat constructor; cbn [fst]; apply notin_closed; vm_compute; reflexivity.
+  destruct h; cbn [alg_params alg_params_n map fst snd]; (split; [discriminate|]);
+    repeat constructor; vm_compute; reflexivity.
 Qed.
 
-Lemma params_nodollar h : ~ In dollar (join [comma] (map show_param (alg_params h))).
+Lemma alg_params_ok h : forallb (fun kv => value_ok (snd kv)) (alg_params h) = true -> Forall param_ok (alg_params h).
 Proof.
-  destruct (alg_params_keys h) as (_ & _ & _ & FD).
-  apply notin_join; [vm_compute; discriminate|].
+  intro V. destruct (alg_params_keys h) as (_ & K). rewrite forallb_forall in V. rewrite Forall_forall in *.
+  intros kv I. split; [exact (K kv I) | exact (V kv I)].
+Qed.
+
+Lemma params_nodollar h : Forall param_ok (alg_params h) -> ~ In dollar (join [comma] (map show_param (alg_params h))).
+Proof.
+  intro F. apply notin_join; [vm_compute; discriminate|].
   apply Forall_forall. intros f I. apply in_map_iff in I. destruct I as (kv & <- & I).
-  rewrite Forall_forall in FD. apply show_param_notin; [exact (FD kv I) | vm_compute; discriminate | vm_compute; left; reflexivity].
+  rewrite Forall_forall in F. apply show_param_notin; [exact (F kv I) | vm_compute; reflexivity | vm_compute; reflexivity | vm_compute; discriminate].
 Qed.
 
 (* what the printer writes, split at `$` *)
-Lemma print_fields h salt :
+Lemma print_fields h salt : Forall param_ok (alg_params h) ->
   fields dollar (phc_print_x (writer_record h salt None)) =
   [] :: alg_name h ::
   (match alg_version h with Some v => [lit "v=" ++ dec v] | None => [] end)
   ++ [join [comma] (map show_param (alg_params h)); b64_enc salt].
 Proof.
-  pose proof (alg_name_nodollar h) as NA. pose proof (params_nodollar h) as NP.
+  intro PO. pose proof (alg_name_nodollar h) as NA. pose proof (params_nodollar h PO) as NP.
   assert (~ In dollar (b64_enc salt)) as NS by (apply notin_b64; vm_compute; reflexivity).
   unfold phc_print_x, writer_record. cbn [ph_alg ph_version ph_params ph_salt ph_hash].
   rewrite app_nil_r.
@@ -335,54 +465,138 @@ Lemma get_ver_writer h r :
   (match alg_version h with Some v => Some (Some v) | None => None end,
    join [comma] (map show_param (alg_params h)) :: r).
 Proof.
-  destruct h as [rounds|t m p]; cbn [alg_version alg_params app].
+  destruct h as [rounds|t m p]; cbn [alg_version app].
   - reflexivity.
-  - change (get_ver ((lit "v=" ++ dec 19) :: join [comma] (map show_param [(lit "m", dflt 19456 m); (lit "t", dflt 2 t); (lit "p", dflt 1 p)]) :: r))
-      with (Some (undec (dec 19)), join [comma] (map show_param [(lit "m", dflt 19456 m); (lit "t", dflt 2 t); (lit "p", dflt 1 p)]) :: r).
-    rewrite undec_dec. reflexivity.
+  - set (J := join [comma] (map show_param (alg_params (Argon2Id t m p)))).
+    change (get_ver ((lit "v=" ++ dec 19) :: J :: r)) with (Some (canon_dec (dec 19)), J :: r).
+    rewrite canon_dec_dec. reflexivity.
 Qed.
 
-(* the main lemma: no side condition on the algorithm, the parameter values or the salt *)
+(* the main lemma: every algorithm choice; the side condition is what the format demands (rt_side) *)
 Theorem phc_roundtrip_x : forall (h : hash_alg) (salt : bytes),
+  rt_side h salt = true ->
   phc_parse_x (phc_print_x (writer_record h salt None)) = Some (writer_record h salt None).
 Proof.
-  intros h salt. destruct (alg_params_keys h) as (NE & FE & FC & _).
+  intros h salt S. unfold rt_side in S. rewrite !andb_true_iff in S. destruct S as (((V & L) & S3) & S48).
+  apply Nat.leb_le in L, S3, S48.
+  pose proof (alg_params_ok h V) as PO. destruct (alg_params_keys h) as (NE & _).
   rewrite (phc_parse_x_fields _ _ _ (match alg_version h with Some v => Some (Some v) | None => None end)
              [join [comma] (map show_param (alg_params h)); b64_enc salt]
-             (alg_params h) [b64_enc salt] (print_fields h salt)).
-  - unfold finish. rewrite b64_dec_enc. unfold writer_record. destruct (alg_version h); reflexivity.
-  - destruct h; vm_compute; discriminate.
+             (alg_params h) [b64_enc salt] (print_fields h salt PO)).
+  - unfold finish. rewrite salt_text_ok_enc by lia. cbn [negb]. rewrite b64_dec_enc.
+    unfold writer_record. destruct (alg_version h); reflexivity.
+  - apply alg_name_ident.
   - apply get_ver_writer.
   - destruct (alg_version h); discriminate.
   - apply get_params_show; assumption.
 Qed.
 
+(* ... and it is needed: a parameter value of 65 digits, a salt of 2 or of 49 bytes are not printed as PHC strings
+   (model only: the parameters of the Rust writer are u32 and its salt has 16 bytes) *)
+Definition ex_salt : bytes := map (fun n => n2b (N.of_nat n)) (seq 1 16).
+Lemma phc_roundtrip_x_refuted :
+  phc_parse_x (phc_print_x (writer_record (Pbkdf2Sha256 (Some (10 ^ 64))) ex_salt None)) = None /\
+  phc_parse_x (phc_print_x (writer_record (Pbkdf2Sha256 None) [x01; x02] None)) = None /\
+  phc_parse_x (phc_print_x (writer_record (Pbkdf2Sha256 None) (repeat x01 49) None)) = None.
+Proof. repeat split; vm_compute; reflexivity. Qed.
+
+(* u32 parameters and a salt of SALT_LEN bytes meet the side condition *)
+Lemma fits_u32_values h : fits_u32 h = true -> forallb (fun kv => value_ok (snd kv)) (alg_params h) = true.
+Proof.
+  unfold fits_u32, alg_params. rewrite !forallb_forall. intros F kv I.
+  apply in_map_iff in I. destruct I as (kn & <- & I). cbn [snd]. apply value_ok_dec_u32. apply N.ltb_lt. exact (F kn I).
+Qed.
+Lemma fits_u32_lens h : fits_u32 h = true -> Forall (fun kv => (length (snd kv) <= 10)%nat) (alg_params h).
+Proof.
+  unfold fits_u32, alg_params. rewrite forallb_forall, Forall_forall. intros F kv I.
+  apply in_map_iff in I. destruct I as (kn & <- & I). cbn [snd]. apply dec_len_u32. apply N.ltb_lt. exact (F kn I).
+Qed.
+Lemma fits_u32_side h salt : fits_u32 h = true -> length salt = SALT_LEN -> rt_side h salt = true.
+Proof.
+  intros F SL. unfold rt_side. rewrite (fits_u32_values h F), SL. cbn [andb].
+  replace (Nat.leb 3 SALT_LEN) with true by reflexivity. replace (Nat.leb SALT_LEN 48) with true by reflexivity.
+  rewrite !andb_true_r. apply Nat.leb_le.
+  pose proof (fits_u32_lens h F) as LS.
+  destruct h as [r|t m p]; cbn [alg_params alg_params_n map fst snd] in *.
+  - inversion LS as [|? ? L1 LS1]; subst. inversion LS1 as [|? ? L2 _]; subst. cbn [snd] in *.
+    cbn [join]. unfold show_param. cbn [fst snd]. rewrite !app_length. cbn [length].
+    change (length (lit "i")) with 1%nat. change (length (lit "l")) with 1%nat. lia.
+  - inversion LS as [|? ? L1 LS1]; subst. inversion LS1 as [|? ? L2 LS2]; subst. inversion LS2 as [|? ? L3 _]; subst. cbn [snd] in *.
+    cbn [join]. unfold show_param. cbn [fst snd]. rewrite !app_length. cbn [length].
+    change (length (lit "m")) with 1%nat. change (length (lit "t")) with 1%nat. change (length (lit "p")) with 1%nat. lia.
+Qed.
+
+(* the parameter rules of the crates (kdf_valid_x) refuse parameters that are not u32: what writer_context_x
+   checks itself implies the side condition *)
+Lemma pbkdf2_ok_dec k v : pbkdf2_param_ok (k, v) = true -> canon_dec v <> None.
+Proof.
+  unfold pbkdf2_param_ok. cbn [fst snd]. destruct (bytes_eqb k (lit "i") || bytes_eqb k (lit "l")); [|discriminate].
+  destruct (canon_dec v); [discriminate|discriminate].
+Qed.
+Lemma argon2_ok_dec k v : bytes_eqb k (lit "m") || bytes_eqb k (lit "t") || bytes_eqb k (lit "p") = true ->
+  argon2_param_ok (k, v) = true -> canon_dec v <> None.
+Proof.
+  unfold argon2_param_ok. cbn [fst snd]. intros ->. destruct (canon_dec v); discriminate.
+Qed.
+Lemma canon_dec_dec_lt n : canon_dec (dec n) <> None -> N.ltb n U32 = true.
+Proof. rewrite canon_dec_dec. destruct (N.ltb n U32); [reflexivity | contradiction]. Qed.
+
+Theorem kdf_valid_x_fits : forall (h : hash_alg) (salt : bytes) (hash : option bytes),
+  kdf_valid_x (alg_name h) (alg_version h) (alg_params h) salt hash = true -> fits_u32 h = true.
+Proof.
+  intros h salt hash. unfold fits_u32, kdf_valid_x. destruct h as [r|t m p]; cbn [alg_name alg_params alg_params_n map fst snd forallb].
+  - change (is_argon2 (lit "pbkdf2-sha256")) with false. change (is_pbkdf2 (lit "pbkdf2-sha256")) with true. cbv iota.
+    intro H. rewrite !andb_true_iff in H. destruct H as ((((A & B & _) & _) & _) & _).
+    rewrite (canon_dec_dec_lt _ (pbkdf2_ok_dec _ _ A)), (canon_dec_dec_lt _ (pbkdf2_ok_dec _ _ B)). reflexivity.
+  - change (is_argon2 (lit "argon2id")) with true. cbv iota.
+    intro H. rewrite !andb_true_iff in H. destruct H as (((((((((_ & A & B & C & _) & _) & _) & _) & _) & _) & _) & _) & _).
+    rewrite (canon_dec_dec_lt _ (argon2_ok_dec (lit "m") _ eq_refl A)), (canon_dec_dec_lt _ (argon2_ok_dec (lit "t") _ eq_refl B)),
+            (canon_dec_dec_lt _ (argon2_ok_dec (lit "p") _ eq_refl C)). reflexivity.
+Qed.
+
+(* the premise of the KdfFacts theorems, for the executable codec and the executable parameter rules *)
+Theorem phc_roundtrip_x_writer : forall (h : hash_alg) (salt : bytes),
+  length salt = SALT_LEN ->
+  kdf_valid_x (alg_name h) (alg_version h) (alg_params h) salt None = true ->
+  phc_parse_x (phc_print_x (writer_record h salt None)) = Some (writer_record h salt None).
+Proof. intros h salt SL V. apply phc_roundtrip_x. apply fits_u32_side; [exact (kdf_valid_x_fits _ _ _ V) | exact SL]. Qed.
+
 Theorem alg_supported_x_writer : forall h : hash_alg, alg_supported_x (alg_name h) = true.
 Proof. destruct h; vm_compute; reflexivity. Qed.
 
-(* printing is injective on writer records: another salt or parameter gives another PHSF *)
+(* printing is injective on writer records that can be printed: another salt or parameter gives another PHSF *)
 Corollary phc_print_x_inj : forall h h' salt salt',
+  rt_side h salt = true -> rt_side h' salt' = true ->
   phc_print_x (writer_record h salt None) = phc_print_x (writer_record h' salt' None) ->
   writer_record h salt None = writer_record h' salt' None.
 Proof.
-  intros h h' s s' H. pose proof (phc_roundtrip_x h s) as A. rewrite H, phc_roundtrip_x in A.
+  intros h h' s s' S S' H. pose proof (phc_roundtrip_x h s S) as A. rewrite H, (phc_roundtrip_x _ _ S') in A.
   congruence.
 Qed.
 
 (* ==== the KdfFacts theorems with the executable codec: no codec premise remains ============== *)
 Section WithCodec.
   Variable key : Type.
-  Variable kdf : bytes -> option N -> list (bytes * N) -> bytes -> bytes -> key.
-  Variable kdf_valid : bytes -> option N -> list (bytes * N) -> bytes -> bool.
+  Variable kdf : bytes -> option N -> list (bytes * bytes) -> bytes -> bytes -> key.
+  Variable kdf_valid : bytes -> option N -> list (bytes * bytes) -> bytes -> option bytes -> bool.
   Variable decrypt : key -> bytes -> bytes -> res bytes.
+  (* the parameter rules refuse what is not a u32 (the Rust type of the parameters) *)
+  Hypothesis kdf_valid_u32 : forall h salt,
+    kdf_valid (alg_name h) (alg_version h) (alg_params h) salt None = true -> fits_u32 h = true.
 
   Notation writer_context := (writer_context key kdf kdf_valid phc_print_x).
   Notation reader_key := (reader_key key kdf kdf_valid alg_supported_x phc_parse_x).
   Notation decode := (decode key kdf kdf_valid alg_supported_x phc_parse_x decrypt).
 
+  Lemma codec_round_trip : forall h salt,
+    length salt = SALT_LEN ->
+    kdf_valid (alg_name h) (alg_version h) (alg_params h) salt None = true ->
+    phc_parse_x (phc_print_x (writer_record h salt None)) = Some (writer_record h salt None).
+  Proof. intros h salt SL V. apply phc_roundtrip_x. apply fits_u32_side; [exact (kdf_valid_u32 _ _ V) | exact SL]. Qed.
+
   Theorem right_password_reads_codec m h pw tape c t' :
     writer_context m h pw tape = Ok (c, t') -> reader_key (ctx_phsf c) pw = Ok (ctx_key c).
-  Proof. apply right_password_reads; [exact phc_roundtrip_x | exact alg_supported_x_writer]. Qed.
+  Proof. apply right_password_reads; [exact codec_round_trip | exact alg_supported_x_writer]. Qed.
 
   Theorem right_password_decodes_codec enc m h pw tape c t' ct content :
     encrypted_b enc = true ->
@@ -390,7 +604,7 @@ Section WithCodec.
     (m = MCbc -> (16 <= length ct)%nat) ->
     decrypt (ctx_key c) (ctx_iv c) ct = Ok content ->
     decode enc m (Some (ctx_phsf c)) (Some pw) (ctx_iv c ++ ct) = Ok content.
-  Proof. apply right_password_decodes; [exact phc_roundtrip_x | exact alg_supported_x_writer]. Qed.
+  Proof. apply right_password_decodes; [exact codec_round_trip | exact alg_supported_x_writer]. Qed.
 
   Theorem wrong_password_partial_codec enc m h pw pw' tape c t' ct content :
     writer_context m h pw tape = Ok (c, t') ->
@@ -399,7 +613,7 @@ Section WithCodec.
     (forall k', k' <> ctx_key c -> decrypt k' (ctx_iv c) ct <> Ok content) ->
     encrypted_b enc = true ->
     decode enc m (Some (ctx_phsf c)) (Some pw') (ctx_iv c ++ ct) <> Ok content.
-  Proof. apply wrong_password_partial; [exact phc_roundtrip_x | exact alg_supported_x_writer]. Qed.
+  Proof. apply wrong_password_partial; [exact codec_round_trip | exact alg_supported_x_writer]. Qed.
 
   (* the PHSF of a context parses to exactly the writer's record: algorithm, version, parameters,
      the salt drawn from the tape, and NO hash *)
@@ -407,20 +621,20 @@ Section WithCodec.
     writer_context m h pw tape = Ok (c, t') ->
     phc_parse_x (ctx_phsf c) = Some (writer_record h (firstn SALT_LEN tape) None).
   Proof.
-    intro W. destruct (writer_context_inv _ _ _ _ _ _ _ _ _ _ W) as (_ & _ & P & _).
-    rewrite P. apply phc_roundtrip_x.
+    intro W. destruct (writer_context_inv _ _ _ _ _ _ _ _ _ _ W) as (_ & SL & V & P & _).
+    rewrite P. exact (codec_round_trip _ _ SL V).
   Qed.
 
   Theorem phsf_has_no_hash_codec m h pw tape c t' :
     writer_context m h pw tape = Ok (c, t') ->
     exists p, phc_parse_x (ctx_phsf c) = Some p /\ ph_hash p = None.
-  Proof. apply phsf_has_no_hash. exact phc_roundtrip_x. Qed.
+  Proof. apply phsf_has_no_hash. exact codec_round_trip. Qed.
 End WithCodec.
 
-(* ... and with the whole executable plumbing (the term KDF, the crates' parameter rules) *)
+(* ... and with the whole executable plumbing (the term KDF, the crates' parameter rules): no premise at all *)
 Theorem right_password_reads_x : forall m h pw tape c t',
   writer_context_x m h pw tape = Ok (c, t') -> reader_key_x (ctx_phsf c) pw = Ok (ctx_key c).
-Proof. exact (right_password_reads_codec bytes kdf_x kdf_valid_x). Qed.
+Proof. exact (right_password_reads_codec bytes kdf_x kdf_valid_x (fun h salt => kdf_valid_x_fits h salt None)). Qed.
 
 Theorem right_password_decodes_x : forall (decrypt : bytes -> bytes -> bytes -> res bytes) enc m h pw tape c t' ct content,
   encrypted_b enc = true ->
@@ -428,17 +642,17 @@ Theorem right_password_decodes_x : forall (decrypt : bytes -> bytes -> bytes -> 
   (m = MCbc -> (16 <= length ct)%nat) ->
   decrypt (ctx_key c) (ctx_iv c) ct = Ok content ->
   decode bytes kdf_x kdf_valid_x alg_supported_x phc_parse_x decrypt enc m (Some (ctx_phsf c)) (Some pw) (ctx_iv c ++ ct) = Ok content.
-Proof. exact (right_password_decodes_codec bytes kdf_x kdf_valid_x). Qed.
+Proof. intro decrypt. exact (right_password_decodes_codec bytes kdf_x kdf_valid_x decrypt (fun h salt => kdf_valid_x_fits h salt None)). Qed.
 
 Theorem phsf_parses_to_record_x : forall m h pw tape c t',
   writer_context_x m h pw tape = Ok (c, t') ->
   phc_parse_x (ctx_phsf c) = Some (writer_record h (firstn SALT_LEN tape) None).
-Proof. exact (phsf_parses_to_record_codec bytes kdf_x kdf_valid_x). Qed.
+Proof. exact (phsf_parses_to_record_codec bytes kdf_x kdf_valid_x (fun h salt => kdf_valid_x_fits h salt None)). Qed.
 
 Theorem phsf_has_no_hash_x : forall m h pw tape c t',
   writer_context_x m h pw tape = Ok (c, t') ->
   exists p, phc_parse_x (ctx_phsf c) = Some p /\ ph_hash p = None.
-Proof. exact (phsf_has_no_hash_codec bytes kdf_x kdf_valid_x). Qed.
+Proof. exact (phsf_has_no_hash_codec bytes kdf_x kdf_valid_x (fun h salt => kdf_valid_x_fits h salt None)). Qed.
 
 (* every context of a whole write (one per entry / one per solid stream) reads back under the password *)
 Theorem write_all_reads_x : forall k enc m h pw n tape cs t',
@@ -459,16 +673,47 @@ Proof.
   destruct enc; [intro H; inversion H; constructor | apply G | apply G].
 Qed.
 
-(* ==== the premises are met: concrete 16-byte salt, both algorithms, default and explicit parameters ==== *)
-Definition ex_salt : bytes := map (fun n => n2b (N.of_nat n)) (seq 1 16).
+(* ==== the reader on strings no writer of this library produces (the rules of the crates) ====== *)
+Definition outcome_is (phsf : String.string) (e : ekind) : bool :=
+  match reader_key_x (lit phsf) (lit "pw") with Err e' => bytes_eqb (show_ekind e') (show_ekind e) | _ => false end.
+Definition key_of (phsf : String.string) : option bytes :=
+  match reader_key_x (lit phsf) (lit "pw") with Ok k => Some k | _ => None end.
+Arguments outcome_is phsf%string e.
+Arguments key_of phsf%string.
+Example ex_foreign_strings :
+  (* non-canonical decimals, upper case, an empty trailing field, an over-long or undecodable salt: errors of the format *)
+  outcome_is "$pbkdf2-sha256$i=01,l=32$MDEyMzQ1Njc4OWFiY2RlZg" InvalidData = true /\
+  outcome_is "$argon2id$v=019$m=8,t=1,p=1$MDEyMzQ1Njc4OWFiY2RlZg" InvalidData = true /\
+  outcome_is "$ARGON2ID$v=19$m=8,t=1,p=1$MDEyMzQ1Njc4OWFiY2RlZg" InvalidData = true /\
+  outcome_is "$argon2id$v=19$m=8,t=1,p=1$MDEyMzQ1Njc4OWFiY2RlZg$" InvalidData = true /\
+  outcome_is "$pbkdf2-sha256$i=1,l=32$MDE" InvalidData = true /\
+  outcome_is "$pbkdf2-sha256$i=1,l=32$MDEyMx" InvalidData = true /\
+  (* every p is range-checked *)
+  outcome_is "$argon2id$v=19$m=8,t=1,p=1,p=4294967295$MDEyMzQ1Njc4OWFiY2RlZg" InvalidData = true /\
+  (* an unsupported algorithm: the format comes first, then the dispatch; the salt is decoded only after it *)
+  outcome_is "$scrypt$ln=abc$MDEy.DEy" Unsupported = true /\
+  outcome_is "$scrypt$v=01$ln=1$MDEyMzQ1Njc4OWFiY2RlZg" InvalidData = true /\
+  (* of a repeated parameter the last one counts; the associated data of argon2 reaches the KDF, the key id does not *)
+  key_of "$pbkdf2-sha256$i=1,i=2,l=32$MDEyMzQ1Njc4OWFiY2RlZg" = key_of "$pbkdf2-sha256$i=2$MDEyMzQ1Njc4OWFiY2RlZg" /\
+  key_of "$argon2id$v=19$m=8,t=1,keyid=Zm9v,p=1$MDEyMzQ1Njc4OWFiY2RlZg" = key_of "$argon2id$v=19$m=8,t=1,p=1$MDEyMzQ1Njc4OWFiY2RlZg" /\
+  key_of "$argon2id$v=19$m=8,t=1,p=1,data=Zm9v$MDEyMzQ1Njc4OWFiY2RlZg" <> key_of "$argon2id$v=19$m=8,t=1,p=1$MDEyMzQ1Njc4OWFiY2RlZg" /\
+  key_of "$argon2id$v=19$m=8,t=1,p=1,data=Zm9v$MDEyMzQ1Njc4OWFiY2RlZg" <> None /\
+  (* a hash in the string fixes the output length: only 32 bytes make a key *)
+  key_of "$argon2id$v=19$m=8,t=1,p=1$MDEyMzQ1Njc4OWFiY2RlZg$AAECAwQFBgcICQoLDA0ODxAREhMUFRYXGBkaGxwdHh8" <> None /\
+  outcome_is "$argon2id$v=19$m=8,t=1,p=1$MDEyMzQ1Njc4OWFiY2RlZg$AAECAwQFBgcICQoLDA0ODw" InvalidData = true.
+Proof. vm_compute. repeat split; discriminate. Qed.
+
+(* ==== the premises are met: concrete 16-byte salt, both algorithms, default and extreme parameters ==== *)
 Example ex_print_argon2 :
   phc_print_x (writer_record (Argon2Id None None None) ex_salt None) = lit "$argon2id$v=19$m=19456,t=2,p=1$AQIDBAUGBwgJCgsMDQ4PEA"
-  /\ phc_parse_x (lit "$argon2id$v=19$m=19456,t=2,p=1$AQIDBAUGBwgJCgsMDQ4PEA") = Some (writer_record (Argon2Id None None None) ex_salt None).
-Proof. split; vm_compute; reflexivity. Qed.
+  /\ phc_parse_x (lit "$argon2id$v=19$m=19456,t=2,p=1$AQIDBAUGBwgJCgsMDQ4PEA") = Some (writer_record (Argon2Id None None None) ex_salt None)
+  /\ rt_side (Argon2Id None None None) ex_salt = true.
+Proof. repeat split; vm_compute; reflexivity. Qed.
 Example ex_print_pbkdf2 :
   phc_print_x (writer_record (Pbkdf2Sha256 (Some 4294967295)) ex_salt None) = lit "$pbkdf2-sha256$i=4294967295,l=32$AQIDBAUGBwgJCgsMDQ4PEA"
-  /\ phc_parse_x (lit "$pbkdf2-sha256$i=4294967295,l=32$AQIDBAUGBwgJCgsMDQ4PEA") = Some (writer_record (Pbkdf2Sha256 (Some 4294967295)) ex_salt None).
-Proof. split; vm_compute; reflexivity. Qed.
+  /\ phc_parse_x (lit "$pbkdf2-sha256$i=4294967295,l=32$AQIDBAUGBwgJCgsMDQ4PEA") = Some (writer_record (Pbkdf2Sha256 (Some 4294967295)) ex_salt None)
+  /\ rt_side (Pbkdf2Sha256 (Some 4294967295)) ex_salt = true.
+Proof. repeat split; vm_compute; reflexivity. Qed.
 (* the hypothesis of the `_x` theorems is satisfiable: writer_context_x succeeds for both algorithms *)
 Example ex_contexts_exist :
   (exists c t', writer_context_x MCtr (Argon2Id None None None) (lit "pw") ex_tape = Ok (c, t')
